@@ -3,7 +3,7 @@
 //! This file contains no indicator arithmetic: expected values come from TLC as exact rationals.
 
 use crate::adapter::{observe, Bar, Ind};
-use crate::units::{shift_ok, Unit, BIG};
+use crate::units::{shift_ok, Unit};
 use serde_json::{json, Value};
 use std::collections::hash_map::DefaultHasher;
 use std::collections::{HashMap, HashSet};
@@ -21,6 +21,7 @@ pub struct Cfg {
     pub m: f64,
     pub seed: f64,
     pub key: String,
+    pub mem: usize,
 }
 
 fn nper(kind: &str) -> usize {
@@ -50,6 +51,15 @@ pub struct Live {
     pub len0: Option<usize>, // serialized length after the first input (C18)
     pub last: Vec<f64>,      // raw outputs of the previous step
     pub last_in: f64,        // previous scalar input (EMA restart check)
+    pub shadow: Option<Ind>, // C04: a freshly constructed instance fed the same inputs since the last reset
+    pub inputs: Vec<InRec>,  // C17: the real inputs since reset
+    pub mem: usize,          // Memory(kind, p) from the specification (0 = unbounded)
+}
+
+#[derive(Clone, Copy, Debug)]
+pub enum InRec {
+    S(f64),
+    B(Bar),
 }
 
 #[derive(Default, Clone)]
@@ -77,6 +87,8 @@ pub struct Stats {
 }
 
 pub struct Ctx {
+    // C05: (configuration, literal history) -> (hash of output bits, behaviour line), across all behaviours
+    pub global: HashMap<(u64, u64, u64), (u64, u64)>,
     pub prop: String,
     pub stats: Stats,
     pub violations: Vec<Value>,
@@ -127,7 +139,7 @@ fn rel_close(a: f64, b: f64, rel: f64, floor: f64) -> bool {
 
 impl Ctx {
     pub fn new(prop: &str) -> Ctx {
-        Ctx { prop: prop.to_string(), stats: Stats::default(), violations: vec![], vio_total: 0, distinct: HashSet::new(), max_vio: 40 }
+        Ctx { global: HashMap::new(), prop: prop.to_string(), stats: Stats::default(), violations: vec![], vio_total: 0, distinct: HashSet::new(), max_vio: 40 }
     }
 
     fn violate(&mut self, line_no: u64, unit: &Unit, step: usize, live: Option<&Live>, clause: &str, detail: Value) {
@@ -150,7 +162,7 @@ impl Ctx {
 pub fn has(prop: &str, what: &str) -> bool {
     // which families of comparison a property's check enables
     match what {
-        "value" => matches!(prop, "C01" | "C02" | "C03" | "C04" | "C13" | "C17"),
+        "value" => matches!(prop, "C01" | "C02" | "C03" | "C04" | "C05" | "C06" | "C13"),
         "det_bits" => matches!(prop, "C05"),
         "det_rel" => matches!(prop, "C04" | "C06"),
         "eff_rel" => matches!(prop, "C10"),
@@ -183,13 +195,7 @@ fn image(unit: &Unit, r: (i64, i64), dim: &str) -> f64 {
                 unit.a * rf + unit.b
             }
         }
-        "spread" => {
-            if r.1 == 1 && r.0.abs() == BIG {
-                unit.big * (r.0.signum() as f64)
-            } else {
-                unit.a * rf
-            }
-        }
+        "spread" => unit.a * rf,
         "var" => unit.a * unit.a * rf,
         "vol" => unit.av * rf,
         _ => rf,
@@ -213,7 +219,8 @@ fn cfg_of(op: &Value) -> Cfg {
     let m = rat(&op["m"]);
     let seed = rat(&op["seed"]);
     let key = format!("{}:{:?}:{}/{}:{}/{}", kind, per, m.0, m.1, seed.0, seed.1);
-    Cfg { kind, per, m: m.0 as f64 / m.1 as f64, seed: seed.0 as f64 / seed.1 as f64, key }
+    let mem = op["mem"].as_u64().unwrap_or(0) as usize;
+    Cfg { kind, per, m: m.0 as f64 / m.1 as f64, seed: seed.0 as f64 / seed.1 as f64, key, mem }
 }
 
 /// Units legal for a behaviour: shifts only for shift-covariant kinds; RSI pinned by its seed.
@@ -272,7 +279,7 @@ impl<'a> Run<'a> {
                     let r = catch_unwind(AssertUnwindSafe(|| Ind::new(&cfg.kind, &cfg.per, cfg.m)));
                     match r {
                         Ok(Ok(ind)) => {
-                            let l = Live { ind, cfg, t: 0, mag: 0.0, strict: 0, eff: 0, cmax: 1.0, tainted: false, dead: false, len0: None, last: vec![], last_in: 0.0 };
+                            let l = Live { ind, t: 0, mag: 0.0, strict: 0, eff: 0, cmax: 1.0, tainted: false, dead: false, len0: None, last: vec![], last_in: 0.0, shadow: None, inputs: vec![], mem: cfg.mem, cfg };
                             self.insts.insert(i, l);
                         }
                         Ok(Err(e)) => ctx.violate(self.line_no, self.unit, idx, None, "ctor-rejected-valid", json!({"cfg": cfg.key, "err": e})),
@@ -307,6 +314,11 @@ impl<'a> Run<'a> {
                         l.tainted = false;
                         l.len0 = None;
                         l.last.clear();
+                        l.inputs.clear();
+                        if prop == "C04" {
+                            let (k, p, m) = (l.cfg.kind.clone(), l.cfg.per.clone(), l.cfg.m);
+                            l.shadow = catch_unwind(AssertUnwindSafe(|| Ind::new(&k, &p, m).ok())).ok().flatten();
+                        }
                         if has(&prop, "params") {
                             let after = (l.ind.display(), l.ind.period(), l.ind.multiplier().map(|m| m.to_bits()));
                             if before != after {
@@ -453,12 +465,14 @@ impl<'a> Run<'a> {
         let raw: Result<Option<Vec<f64>>, ()>;
         let mut di_raw: Option<Vec<f64>> = None;
         let mut inmag: f64 = 0.0;
+        let inrec: InRec;
         match name {
             "s" => {
                 let k = op["x"].as_i64().unwrap();
                 lits.push(k);
                 let x = unit.price(k);
                 inmag = x.abs();
+                inrec = InRec::S(x);
                 raw = catch_unwind(AssertUnwindSafe(|| l.ind.next_s(x))).map_err(|_| ());
             }
             "b" => {
@@ -466,6 +480,7 @@ impl<'a> Run<'a> {
                 lits.extend_from_slice(&ks);
                 lits.push(-7);
                 inmag = bar.h.abs().max(bar.l.abs()).max(bar.c.abs());
+                inrec = InRec::B(bar);
                 if has(&prop, "eff_rel") {
                     // DataItem must behave exactly like any other implementor carrying the same numbers
                     if let Some(di) = bar.data_item() {
@@ -481,6 +496,7 @@ impl<'a> Run<'a> {
                 lits.push(x.to_bits() as i64);
                 lits.push(-9);
                 l.tainted = true;
+                inrec = if Ind::has_scalar(&l.cfg.kind) { InRec::S(x) } else { InRec::B(Bar::one(x)) };
                 raw = if Ind::has_scalar(&l.cfg.kind) {
                     catch_unwind(AssertUnwindSafe(|| l.ind.next_s(x))).map_err(|_| ())
                 } else {
@@ -511,6 +527,28 @@ impl<'a> Run<'a> {
             }
         };
         let got = observe(&l.cfg.kind, &raw);
+        // ---- C04: after reset() the instance must be indistinguishable from a freshly constructed one
+        if let Some(sh) = l.shadow.as_mut() {
+            let r = catch_unwind(AssertUnwindSafe(|| match inrec {
+                InRec::S(x) => sh.next_s(x).unwrap(),
+                InRec::B(b) => sh.next_b(&b),
+            }));
+            match r {
+                Ok(fresh) => {
+                    ctx.stats.det_compared += 1;
+                    if fresh.len() != raw.len() || !fresh.iter().zip(raw.iter()).all(|(a, b)| rel_close(*a, *b, 1e-12, 0.0)) {
+                        let lc = l.clone();
+                        ctx.violate(self.line_no, &unit, idx, Some(&lc), "reset-differs-from-fresh", json!({"fresh": fresh, "after_reset": raw, "input": op}));
+                    }
+                }
+                Err(_) => {
+                    l.shadow = None;
+                }
+            }
+        }
+        if prop == "C17" {
+            l.inputs.push(inrec);
+        }
         // ---- C02, long recursions: the whole memory of an EMA is its last output (spec lemma: the reference
         //      state of EMA is that one rational), so a fresh EMA fed [previous output, x_t] must return out_t
         if prop == "C02" && l.cfg.kind == "EMA" && name == "s" && !l.tainted && l.last.len() == 1 && l.t >= 2 {
@@ -591,11 +629,37 @@ impl<'a> Run<'a> {
                     let ok = if has(&prop, "det_bits") {
                         first.iter().zip(got.iter()).all(|(a, b)| same_bits(*a, *b))
                     } else {
-                        first.iter().zip(got.iter()).all(|(a, b)| rel_close(*a, *b, 1e-12, l.mag))
+                        first.iter().zip(got.iter()).all(|(a, b)| rel_close(*a, *b, 1e-12, 0.0))
                     };
                     if !ok {
                         let clause = if has(&prop, "det_bits") { "same-history-different-bits" } else { "same-history-different-output" };
                         ctx.violate(self.line_no, &unit, idx, Some(&l), clause, json!({"first": first, "now": got}));
+                    }
+                }
+            }
+        }
+        if has(&prop, "det_bits") {
+            let mut h = DefaultHasher::new();
+            l.cfg.key.hash(&mut h);
+            (unit.a.to_bits(), unit.b.to_bits(), unit.av.to_bits()).hash(&mut h);
+            let ck = h.finish();
+            let mut h2_ = DefaultHasher::new();
+            for g in raw.iter() {
+                (if g.is_nan() { f64::NAN.to_bits() } else { g.to_bits() }).hash(&mut h2_);
+            }
+            let oh = h2_.finish();
+            let key = (ck, l.strict, l.t);
+            match ctx.global.get(&key) {
+                None => {
+                    if ctx.global.len() < 4_000_000 {
+                        ctx.global.insert(key, (oh, self.line_no));
+                    }
+                }
+                Some((first, line0)) => {
+                    ctx.stats.det_compared += 1;
+                    if *first != oh {
+                        let l0 = *line0;
+                        ctx.violate(self.line_no, &unit, idx, Some(&l), "same-history-different-bits-across-behaviours", json!({"other_line": l0, "now": raw}));
                     }
                 }
             }
@@ -761,6 +825,50 @@ impl<'a> Run<'a> {
                     let tol = tau(t).sqrt() * l.mag * (if kind == "BB" { l.cfg.m.abs().max(1.0) } else { 1.0 }) * 1.001;
                     if !(g.abs() <= tol) {
                         ctx.violate(self.line_no, &unit, idx, Some(&l), "neutral-sd", json!({"got": g, "tol": tol}));
+                    }
+                }
+            }
+        }
+        // ---- C17: the output depends on the last Memory(kind, p) inputs only (spec: the reference state IS that window)
+        if prop == "C17" && l.mem > 0 && l.inputs.len() > l.mem && !tie_skip {
+            let (k, p, m) = (l.cfg.kind.clone(), l.cfg.per.clone(), l.cfg.m);
+            let suffix: Vec<InRec> = l.inputs[l.inputs.len() - l.mem..].to_vec();
+            let r = catch_unwind(AssertUnwindSafe(|| {
+                let mut f = Ind::new(&k, &p, m).unwrap();
+                let mut out = vec![];
+                for x in suffix.iter() {
+                    out = match x {
+                        InRec::S(x) => f.next_s(*x).unwrap(),
+                        InRec::B(b) => f.next_b(b),
+                    };
+                }
+                out
+            }));
+            if let Ok(fr) = r {
+                let fresh = observe(&l.cfg.kind, &fr);
+                for (k, f) in fields.iter().enumerate() {
+                    let cls = f["cls"].as_str().unwrap_or("none");
+                    let (a, b) = (got[k], fresh[k]);
+                    let kind = l.cfg.kind.as_str();
+                    let (err, tol) = if matches!(kind, "MIN" | "MAX" | "FAST_STOCH") || cls == "exact" {
+                        (if num_eq(a, b) { 0.0 } else { f64::INFINITY }, 0.0)
+                    } else {
+                        match cls {
+                            "tau" => ((a - b).abs(), tau(t) * l.mag * mfac * 1.001),
+                            "tauvar" => ((a.signum() * a * a - b.signum() * b * b).abs(), tau(t) * l.mag * l.mag * (l.cfg.m * l.cfg.m).max(1.0) * 1.001),
+                            "cond" | "neutral" => {
+                                if !(c <= 1e6) {
+                                    ctx.stats.skipped_ill += 1;
+                                    continue;
+                                }
+                                ((a - b).abs(), tau(t) * c * scale_of(kind) * 1.001)
+                            }
+                            _ => continue,
+                        }
+                    };
+                    ctx.stats.fields_compared += 1;
+                    if !(err <= tol) || (a.is_nan() != b.is_nan()) {
+                        ctx.violate(self.line_no, &unit, idx, Some(&l), "history-differs-from-bare-suffix", json!({"field": f["k"], "whole_history": a, "suffix_only": b, "tol": tol, "cond": c, "M": l.mag}));
                     }
                 }
             }
